@@ -11,6 +11,7 @@
 import Amoco.Model.HexSrec
 import Amoco.Model.Elf
 import Amoco.Proofs.Fmt
+import Amoco.Proofs.FmtAlloc
 
 namespace Amoco.Fmt.Props20
 
@@ -98,6 +99,50 @@ theorem magic_disjoint (env : ElfEnv) (data : Bytes) (hb : BytesOK data) :
   · rintro ⟨h1, h2⟩
     exact accHex_accSrec data h1 h2
 
+/-- **No unbounded allocation (HEX).**  Whatever `HEX.__init__` accepts, the object it builds holds at
+    most one record per input line — hence per input byte — and at most one data byte per two input
+    characters: memory is linear in the length of the file, whatever the count fields say. -/
+theorem hex_alloc_bounded (data : Bytes) (h : HexFile) (e : hexInit data = .ok h) :
+    h.lines.length ≤ data.length ∧ 2 * hexDataBytes h.lines ≤ data.length := by
+  have := hexInitLoop_bound (readlines data) _ h e
+  have hs := readlines_sum data
+  simp only [List.length_nil, hexDataBytes, List.map_nil, List.sum_nil] at this
+  simp only [hexDataBytes]
+  omega
+
+/-- **No unbounded allocation (S-records).** -/
+theorem srec_alloc_bounded (data : Bytes) (h : SrecFile) (e : srecInit data = .ok h) :
+    h.lines.length ≤ data.length ∧ 2 * srecDataBytes h.lines ≤ data.length := by
+  have := srecInitLoop_bound (readlines data) _ h e
+  have hs := readlines_sum data
+  simp only [List.length_nil, srecDataBytes, List.map_nil, List.sum_nil] at this
+  simp only [srecDataBytes]
+  omega
+
+/-- the bytes the loaders place in memory (`decode`) are among the data bytes counted above -/
+theorem hex_decode_bounded (data : Bytes) (h : HexFile) (e : hexInit data = .ok h) :
+    2 * ((hexDecode h.lines).map (fun p => p.2.length)).sum ≤ data.length := by
+  have hb := (hex_alloc_bounded data h e).2
+  have : ∀ (ls : List HexLine) (b : Int),
+      ((hexDecodeLoop ls b).map (fun p => p.2.length)).sum ≤ hexDataBytes ls := by
+    intro ls
+    induction ls with
+    | nil => intro b; simp [hexDecodeLoop, hexDataBytes]
+    | cons l rest ih =>
+      intro b
+      unfold hexDecodeLoop
+      have k : hexDataBytes (l :: rest) = l.data.length + hexDataBytes rest := by simp [hexDataBytes]
+      split
+      · exact Nat.le_trans (ih _) (by omega)
+      · split
+        · exact Nat.le_trans (ih _) (by omega)
+        · split
+          · have := ih b
+            simp only [List.map_cons, List.sum_cons]; omega
+          · have := ih b; omega
+  have := this h.lines 0
+  unfold hexDecode; omega
+
 /-! ## non-vacuity -/
 
 -- a one-record HEX file is accepted by HEX and by nothing before it in the chain
@@ -106,6 +151,10 @@ example : readProgram { knownPT := [], knownSHT := [] }
     [58, 48, 48, 48, 48, 48, 48, 48, 49, 70, 70, 10] =
     .ok (.hex { lines := [⟨0, 0, 1, [], 255, .none⟩], entry := .zero, eip := none }) := by
   rfl
+
+-- the hypothesis of `hex_alloc_bounded` is met by a record with data: `:0100000041BE` keeps 1 data byte of 13 characters
+example : ∃ h, hexInit [58, 48, 49, 48, 48, 48, 48, 48, 48, 52, 49, 66, 69, 10] = .ok h ∧ hexDataBytes h.lines = 1 ∧ h.lines.length = 1 :=
+  ⟨_, rfl, rfl, rfl⟩
 
 -- random bytes fall through to the raw fallback
 example : readProgram { knownPT := [], knownSHT := [] }
